@@ -12,6 +12,8 @@ package portforwarding
 // from the input bytes (wire.DeliveryFor).
 
 import (
+	"net"
+	"reflect"
 	"testing"
 
 	"pgregory.net/rapid"
@@ -61,13 +63,37 @@ func c11dPFShape(in []byte) string {
 	return "consistent"
 }
 
+// c11dPFUsable is the clause "a nil error comes with a value": the statement
+// promises "a value or an error", and what the caller of readPacket
+// (StartPFServer) does with the address of a successful decode is to call its
+// Network and String methods and to switch on its type - so a successful
+// decode must hand back a non-nil address on which these calls do not panic.
+func c11dPFUsable(v *vlib.Verdict, addr net.Addr, err error, in []byte) {
+	if err != nil || !v.OK() {
+		return
+	}
+	if addr == nil {
+		v.Failf("C11:nil-error-without-value:portforwarding.readPacket", "readPacket returned a nil address together with a nil error for input % x", in[:min(len(in), 16)])
+		return
+	}
+	if rv := reflect.ValueOf(addr); rv.Kind() == reflect.Pointer && rv.IsNil() {
+		v.Failf("C11:nil-error-without-value:portforwarding.readPacket", "readPacket returned a nil %T together with a nil error for input % x", addr, in[:min(len(in), 16)])
+		return
+	}
+	vlib.Guard(v, func() { _, _ = addr.Network(), addr.String() })
+}
+
 func c11dPFRun(c c11dPF, v *vlib.Verdict) {
 	in := c.input()
 	shape := c11dPFShape(in)
 	v.Label(shape)
 	v.NonTrivial = shape != "consistent"
 	var err error
-	wire.DecoderCallBoth(v, "portforwarding.readPacket", in, c.Dlv, func(st *wire.Stream) { _, _, err = readPacket(st) })
+	wire.DecoderCallBoth(v, "portforwarding.readPacket", in, c.Dlv, func(st *wire.Stream) {
+		var addr net.Addr
+		addr, _, err = readPacket(st)
+		c11dPFUsable(v, addr, err, in)
+	})
 	if v.OK() {
 		v.Label(map[bool]string{true: "returned-value", false: "returned-error"}[err == nil])
 	}
@@ -109,7 +135,9 @@ type c11dPFSweep struct {
 var c11dPFBases = []struct {
 	net  byte
 	addr string
-}{{PfTCP, "127.0.0.1:8080"}, {PfUDP, "[::1]:53"}, {PfUNIX, "/tmp/s"}, {PfTCP, ""}, {9, "x"}}
+}{{PfTCP, "127.0.0.1:8080"}, {PfUDP, "[::1]:53"}, {PfUNIX, "/tmp/s"}, {PfTCP, ""}, {9, "x"},
+	// the values around the known network types (the forwarding-type constants 4 and 5 share the constant block)
+	{0, "/tmp/s"}, {4, "/tmp/s"}, {5, "127.0.0.1:8080"}, {6, "/tmp/s"}, {255, "[::1]:53"}}
 
 func c11dPFSweepRun(c c11dPFSweep, v *vlib.Verdict) {
 	b := c11dPFBases[c.Base]
@@ -125,7 +153,10 @@ func c11dPFSweepRun(c c11dPFSweep, v *vlib.Verdict) {
 	shape := c11dPFShape(in)
 	v.Label(shape)
 	v.NonTrivial = shape != "consistent"
-	wire.DecoderCallBoth(v, "portforwarding.readPacket", in, wire.DeliveryFor(wire.Hash64(in)), func(st *wire.Stream) { readPacket(st) })
+	wire.DecoderCallBoth(v, "portforwarding.readPacket", in, wire.DeliveryFor(wire.Hash64(in)), func(st *wire.Stream) {
+		addr, _, err := readPacket(st)
+		c11dPFUsable(v, addr, err, in)
+	})
 }
 
 func TestVerifC11DecReadPacketSweep(t *testing.T) {
@@ -154,5 +185,5 @@ func TestVerifC11DecReadPacketSweep(t *testing.T) {
 		}
 	}
 	rec.SetExhaustive(true)
-	rec.Extra("enumerated", "5 requests x {no edit, each of net type / forward type / address length set to 0,1,actual-1,actual+1,0xFF,0xFFFF,0xFFFFFFFF} x every truncation")
+	rec.Extra("enumerated", "10 requests (network types 0-6, 9, 255) x {no edit, each of net type / forward type / address length set to 0,1,actual-1,actual+1,0xFF,0xFFFF,0xFFFFFFFF} x every truncation")
 }
